@@ -10,7 +10,7 @@ From Coq Require Import ZArith QArith Qcanon List Lia Bool.
 From Coq Require Import Reals.
 From Coquelicot Require Import Coquelicot.
 From RV Require Import Base.Num Base.Vec Mech.Spline Inst Proofs.QcInst Proofs.ListLemmas Proofs.SplineProofs
-     Proofs.SplineDer Proofs.SplineDerList Proofs.DerProofs Proofs.SplineDerReal Proofs.SplineDerBounded Proofs.SplineHull.
+     Proofs.SplineDer Proofs.SplineDerList Proofs.DerProofs Proofs.SplineDerReal Proofs.SplineDerBounded Proofs.SplineHull Proofs.SplineChain Proofs.SplineTime.
 Import ListNotations.
 Local Open Scope nat_scope.
 
@@ -155,6 +155,44 @@ Theorem C17_coefficient_bounds_bound_the_spline_R :
 Proof. exact SplineHull_R. Qed.
 Print Assumptions C17_coefficient_bounds_bound_the_spline_R.
 
+(* "the declared integrator-chain dynamics hold identically in time": on the model's own list definitions over the
+   reals, for a strictly increasing grid xi, the r-th member of a derivative chain — coefficients obtained by applying
+   bspline_derivative r times (chain_coeffs), degrees d, d-1, ..., d-r — is the r-th derivative of the head's spline at
+   EVERY x (as polynomials of the span j), for every r <= d.  (p' = v, v' = a is r = 1, 2.) *)
+Theorem C17_chain_members_are_derivatives :
+  forall (c xi : list R) (d j r : nat),
+  length c = length xi - 1 + d -> strictly_increasing xi -> d <= j -> j < length c -> r <= d ->
+  forall x : R,
+    is_derive_n (fun y => @spline_value R ROps c (@basis_values R ROps (@clamped R ROps xi d) d j y)) r x
+                (@spline_value R ROps (chain_coeffs c xi d r)
+                               (@basis_values R ROps (@clamped R ROps xi (d - r)) (d - r) (j - r) x)).
+Proof. exact spline_chain_derivative_n_strict_R. Qed.
+Print Assumptions C17_chain_members_are_derivatives.
+
+(* derivatives in PHYSICAL time: a signal kept on a normalized grid and evaluated at (t - t0)/T has as r-th time
+   derivative (1/T)^r times the r-th chain member — one factor 1/T per derivative, for every r <= d and every t;
+   equivalently, bspline_derivative on the physical knots t0 + T*xi yields the normalized coefficients divided by T *)
+Theorem C17_physical_time_derivative :
+  forall (c xi : list R) (d j r : nat) (t0 T : R),
+  T <> 0%R ->
+  length c = length xi - 1 + d -> strictly_increasing xi -> d <= j -> j < length c -> r <= d ->
+  forall t : R,
+    is_derive_n (fun s => @spline_value R ROps c
+                            (@basis_values R ROps (@clamped R ROps xi d) d j ((s - t0) / T)%R)) r t
+                ((/ T) ^ r * @spline_value R ROps (chain_coeffs c xi d r)
+                               (@basis_values R ROps (@clamped R ROps xi (d - r)) (d - r) (j - r)
+                                              ((t - t0) / T)%R))%R.
+Proof. exact spline_physical_time_derivative_R. Qed.
+Print Assumptions C17_physical_time_derivative.
+
+Theorem C17_derivative_coefficients_on_physical_knots :
+  forall (c xi : list R) (d : nat) (t0 T : R),
+  T <> 0%R -> 1 <= length xi -> length c <= length xi + d ->
+  @bspline_derivative R ROps c (map (fun s => (t0 + T * s)%R) xi) d
+  = map (fun v => (v / T)%R) (@bspline_derivative R ROps c xi d).
+Proof. exact bspline_derivative_affine_knots_R. Qed.
+Print Assumptions C17_derivative_coefficients_on_physical_knots.
+
 (* non-vacuity: quadratic basis on clamped knots 0,0,0,1/2,1,1,1 at x = 1/4 (span j = 2): 9/16... sums to 1 *)
 Local Existing Instance QcOps.
 Example C17_nonvacuous :
@@ -182,4 +220,5 @@ Qed.
    which also ranged over indices beyond the knot list where knot_fun pads with 0, could not be met there) and of
    the convex-hull theorem: proved in Proofs/SplineDerBounded.v and Proofs/SplineHull.v *)
 Example C17_bounded_derivative_nonvacuous : True /\ True.
-Proof. pose proof spline_derivative_lists_bounded_nonvacuous as _. pose proof SplineHull_nonvacuous as _. split; exact I. Qed.
+Proof. pose proof spline_derivative_lists_bounded_nonvacuous as _. pose proof SplineHull_nonvacuous as _.
+  pose proof spline_chain_nonvacuous_R as _. pose proof spline_physical_time_nonvacuous_R as _. split; exact I. Qed.
